@@ -281,6 +281,9 @@ impl Report {
         for f in other.found {
             if !self.found.iter().any(|x| x.sig == f.sig) {
                 self.found.push(f);
+            } else if !f.replay.contains("/regress/") {
+                // Another shard already reported this signature: keep one replay file.
+                let _ = std::fs::remove_file(&f.replay);
             }
         }
         for n in other.notes {
